@@ -216,7 +216,8 @@ class World:
         for owner, role in self.prog.mutated_presets():
             self.mutations.append((self.op_index, "preset", owner, role))
         if self.record:
-            self.log.add("op", self.op_index, kind, op["node"], crepr(op["o"]), out.brief())
+            # (which of several missing keys a failure names depends on set iteration order -> not part of the log)
+            self.log.add("op", self.op_index, kind, op["node"], crepr(op["o"]), out.brief()[:3])
         return out
 
     def _structural(self, op):
